@@ -58,7 +58,7 @@ def _track_digests(chart):
     return out
 
 
-def sel_record(r, cid, present, poison, want, form="list", kinds=3):
+def sel_record(r, cid, present, poison, want, form="list", kinds=3, order=None):
     """present / poison: concrete headers; want: None or list of concrete headers (may be absent ones)."""
     idx = {h: k for k, h in enumerate(sorted(set(present) | set(want or [])))}
     bodies, ref_bodies = {}, {}
@@ -68,8 +68,7 @@ def sel_record(r, cid, present, poison, want, form="list", kinds=3):
             ref_bodies[h] = benign_body(idx[h], variant=5)       # arbitrary OTHER content in the reference
         else:
             bodies[h] = ref_bodies[h] = benign_body(idx[h])
-    order = None
-    if kinds > 3 and r.random() < 0.5:
+    if order is None and kinds > 3 and r.random() < 0.5:
         order = ["Song", "SyncTrack", "Events"] + list(present)
         r.shuffle(order)
     text = build(present, bodies, order)
@@ -108,16 +107,27 @@ def record_from_texts(cid, text, ref_text, present, poison, want, form="list"):
 
 def run(ctx):
     r = rng("C13")
-    res = ctx.mc("MC_ChartRoute", ctx.pick("MC_ChartRoute_quick", "MC_ChartRoute"), deadlock=False)
+    # non-vacuity: a partitioner that stops after the last selected track must violate C13 (required sections may follow it)
+    bad = ctx.mc("MC_ChartRoute", "MC_ChartRoute_stopearly", allow_violation=True, deadlock=False)
+    if not bad.violated:
+        from ctx import MachineryError
+        raise MachineryError("ChartRoute.tla: the early-stopping partitioner violates nothing (vacuous model)")
+    ctx.extra["model_variant_stop_early_violates"] = bad.violated
+    res = ctx.mc("MC_ChartRoute", ctx.pick("MC_ChartRoute_quick", "MC_ChartRoute"), deadlock=False, timeout=1500)
     beh = _notes._behaviours(res)
     ctx.extra["route_behaviours"] = len(beh)
+    lim = ctx.pick(5000, 60000)
+    if len(beh) > lim:
+        beh = r.sample(beh, lim)
+        ctx.count("behaviours_sampled_not_all")
     recs, texts = [], {}
     forms = ["list", "tuple", "dup"]
     for k, b in enumerate(beh):
         present = [CONCRETE[h] for h in b["present"]]
         poison = {CONCRETE[h] for h in b["poison"]}
         want = None if b["want"][0] == "none" else [CONCRETE[h] for h in b["want"][1]]
-        rec, text = sel_record(r, f"m{k}", present, poison, want, form=forms[k % 3])
+        order = [CONCRETE.get(h, h) for h in b["file"]] if "file" in b else None
+        rec, text = sel_record(r, f"m{k}", present, poison, want, form=forms[k % 3], order=order)
         recs.append(rec)
         texts[rec["id"]] = text
         ctx.evaluations += 1
